@@ -88,12 +88,24 @@ def _create_table(rng, tables):
     return head + name + " (" + ", ".join(cols) + ")" + rng.choice(_TABLE_TAILS) + ";"
 
 
+def _like_table(rng, tables):
+    """CREATE TABLE x (LIKE y) / LIKE y followed by ordinary table clauses: keywords met in an unusual lexer state."""
+    name = _tname(rng)
+    src = rng.choice(tables) if tables and rng.random() < 0.6 else rng.choice(_NAMES)
+    tables.append(name)
+    head = _case(rng, "create") + " " + rng.choice(["", "", "TEMP ", "TEMPORARY "]) + _case(rng, "table") + " "
+    body = "(LIKE %s)" % src if rng.random() < 0.7 else "LIKE %s" % src
+    tail = rng.choice(_TABLE_TAILS + [" ON COMMIT DROP", " ON COMMIT DROP", " COMMENT='copy'", " comment 'a copy'"])
+    return head + name + " " + body + tail + ";"
+
+
 def _alter(rng, tables):
     t = _tname(rng, tables)
     k = rng.random()
     if k < 0.3:
-        return "ALTER TABLE %s ADD CONSTRAINT fk_a%d FOREIGN KEY (%s) REFERENCES %s (id);" % (
-            t, rng.randint(1, 99), rng.choice(_COLS), rng.choice(_NAMES))
+        return "ALTER TABLE %s ADD CONSTRAINT fk_a%d FOREIGN KEY (%s) REFERENCES %s (id)%s;" % (
+            t, rng.randint(1, 99), rng.choice(_COLS), rng.choice(_NAMES),
+            rng.choice(["", "", " ON DELETE CASCADE", " ON DELETE CASCADE ON UPDATE CASCADE", " ON UPDATE SET NULL"]))
     if k < 0.5:
         return "alter table %s add primary key (%s);" % (t, rng.choice(_COLS))
     if k < 0.65:
@@ -218,7 +230,7 @@ _KINDS = [
     ("create", _create_table, 10), ("alter", _alter, 4), ("index", _index, 2), ("sequence", _sequence, 2),
     ("type", _type, 2), ("schema", _schema, 2), ("comment", _comment_line, 4), ("set", _set_line, 3),
     ("unsupported", _unsupported, 1), ("regex", _regex_table, 1), ("serde", _serde_table, 1),
-    ("glued", _glued, 1),
+    ("glued", _glued, 1), ("like", _like_table, 1),
 ]
 
 
